@@ -360,7 +360,7 @@ func runOne(ctx context.Context, sp solverSpec, file string, timeoutMs int) (str
 
 // solve races the solvers on the query. mode "first": first definite answer wins. mode "all": every solver
 // runs to completion and definite verdicts must agree.
-func solve(query string, timeoutMs int, all bool, which []int) solveResult {
+func solve(query string, timeoutMs int, all bool, which []int, expectSat bool) solveResult {
 	n := atomic.AddInt64(&queryCounter, 1)
 	file := filepath.Join(getQueryDir(), fmt.Sprintf("q%06d.smt2", n))
 	if err := os.WriteFile(file, []byte(query), 0o644); err != nil {
@@ -414,5 +414,12 @@ func solve(query string, timeoutMs int, all bool, which []int) solveResult {
 		}
 	}
 	res.Time = time.Since(start).Seconds()
+	// A "sat" answer to a query with quantifiers is not a counterexample (the solvers do not check the model
+	// against the quantified hypotheses; z3 5.1 was seen to answer sat on a valid goal): undecided.
+	if res.Verdict == "sat" && !expectSat && (strings.Contains(query, "(forall ") || strings.Contains(query, "(exists ")) {
+		res.Verdict = "unknown"
+		res.Raw = "sat reported for a query with quantifiers: treated as undecided\n" + res.Raw
+		res.Model = ""
+	}
 	return res
 }
